@@ -93,9 +93,6 @@ package index
 //@ extern func github.com/lindb/lindb/pkg/imap.IntMap.WalkEntry
 //@   modifies nothing
 //@ end
-//@ extern func github.com/lindb/lindb/pkg/imap.IntMap.IsEmpty
-//@   modifies nothing
-//@ end
 //@ stable indexKVStore.family
 //@ stable indexKVStore.bucketCache
 //@ func indexKVStore.Flush
@@ -112,6 +109,11 @@ package index
 //@ # nothing is generated for it and the dictionaries are left as they are ---------------------------------------------
 //@ ghost field github.com/lindb/lindb/pkg/imap.IntMap.present map[uint32]bool
 //@ ghost field github.com/lindb/lindb/pkg/imap.IntMap.view map[uint32]ref
+//@ func github.com/lindb/lindb/pkg/imap.IntMap.IsEmpty
+//@   assume
+//@   modifies nothing
+//@   ensures result == all(k, "uint32", !m.present[k])
+//@ end
 //@ func github.com/lindb/lindb/pkg/imap.IntMap.Get
 //@   assume
 //@   modifies nothing
@@ -227,7 +229,19 @@ package index
 //@ # would forget its names: the next get-or-create hands them a second id) -----------------------------------------
 //@ func indexKVStore.PrepareFlush
 //@   prop C09
+//@   requires s.mutable != nil
 //@   modifies s.immutable, s.mutable
 //@   ensures[a_batch_that_waits_for_its_flush_is_never_replaced] old(s.immutable) != nil ==> (s.immutable == old(s.immutable) && s.mutable == old(s.mutable))
-//@   ensures[otherwise_the_mutable_dictionary_becomes_the_waiting_batch] old(s.immutable) == nil ==> (s.immutable == old(s.mutable) && s.mutable != old(s.mutable))
+//@   ensures[a_batch_that_waits_for_a_flush_always_holds_names] s.immutable != nil ==> (old(s.immutable) != nil || !all(k, "uint32", !s.immutable.present[k]))
+//@   ensures[otherwise_a_dictionary_that_holds_names_becomes_the_waiting_batch] (old(s.immutable) == nil && !all(k, "uint32", !old(s.mutable.present)[k])) ==> (s.immutable == old(s.mutable) && s.mutable != old(s.mutable))
+//@ end
+//@ # ... and a flush that reports success leaves no batch waiting - given that a waiting batch always holds names (an empty
+//@ # waiting batch is never flushed, never cleared, and blocks every later switch: the names created afterwards are never
+//@ # made durable and get new ids after a restart)
+//@ func indexKVStore.Flush#waiting
+//@   prop C09
+//@   requires s.family != nil && s.bucketCache != nil && s.snapshot != nil && (s.immutable != nil ==> !all(k, "uint32", !s.immutable.present[k]))
+//@   modifies *
+//@   may_panic
+//@   ensures[a_flush_that_reports_success_leaves_no_batch_waiting] err == nil ==> s.immutable == nil
 //@ end
